@@ -29,6 +29,7 @@ func init() {
 		"bech-string":   replayer(c03EvalBechString),
 		"cash-codeword": replayer(c03EvalCashCodeword),
 		"bech-codeword": replayer(c03EvalBechCodeword),
+		"foreign":       replayer(c03EvalForeign),
 	}})
 }
 
@@ -909,6 +910,7 @@ func runC03(c *mc.Ctx) {
 			}
 		})
 	}
+	runC03Foreign(c)
 }
 
 func pairFromIndex(pi, L int) (int, int) {
